@@ -34,6 +34,13 @@ type instructionType struct {
 	// immediate describes an immediate value encoding format in an
 	// instruction.
 	immediate immType
+	// shamtBits is number of bits of the shift amount encoded in the
+	// instruction opcode. Zero means that the instruction has no shift
+	// amount encoded.
+	shamtBits uint8
+	// hasUimm indicates whether an instruction contains a 5 bit unsigned
+	// immediate value in place of rs1 register (CSR immediate instructions).
+	hasUimm bool
 
 	// instrType is set of instruction types of an opcode.
 	instrType model.Type
